@@ -28,6 +28,10 @@ ASSUMPTIONS = [
 
 def run(ctx):
     typer = typer_for(ctx)
+    hits, stats = lint_program(ctx.p, typer, files={R.RES})
+    ctx.instances["G5"] = stats["typed_node"] + stats["typed_node_seq"]
+    for h in hits:
+        ctx.viol("G5", h.func, h.node, "identity-only rule %s in the resolver: %s" % (h.rule, h.why))
     funcs = R.reachable_from(ctx.p, typer, ["glob"])
     for f in funcs:
         ctx.touch(f)
@@ -54,10 +58,6 @@ def run(ctx):
     ctx.floor("G7", 1)
     R.rule_G1b_dotall(ctx, typer)
     ctx.floor("G6", 1)
-    hits, stats = lint_program(ctx.p, typer, files={R.RES})
-    ctx.instances["G5"] = stats["typed_node"] + stats["typed_node_seq"]
-    for h in hits:
-        ctx.viol("G5", h.func, h.node, "identity-only rule %s in the resolver: %s" % (h.rule, h.why))
     ctx.floor("G1", 5)
     ctx.floor("G2", 2)
     ctx.floor("G3", 2)
